@@ -5,6 +5,7 @@ package simrt
 import (
 	"runtime"
 	"time"
+	"unsafe"
 )
 
 // Under the race detector the token is a plain word that parked tasks poll:
@@ -60,3 +61,9 @@ func (s *Sim) park(t *Task) {
 	}
 	s.cur = t
 }
+
+//go:norace
+func raceRead(p unsafe.Pointer) { runtime.RaceRead(p) }
+
+//go:norace
+func raceWrite(p unsafe.Pointer) { runtime.RaceWrite(p) }
